@@ -223,7 +223,11 @@ pub fn pitch_decade(h: f64) -> String {
 
 /// [x0, y0, z0, r, phi0, h]
 pub fn helix_params() -> impl Strategy<Value = [f64; 6]> {
-    (-3.0f64..=3.0, -3.0f64..=3.0, -1.3f64..=1.3, 0.03f64..=5.0, -PI..=PI, pitch()).prop_map(|(x0, y0, z0, r, phi0, h)| [x0, y0, z0, r, phi0, h])
+    // continuous ranges plus exact boundary values (zeros of either sign, range ends)
+    let coord = |lim: f64| prop_oneof![12 => -lim..=lim, 1 => Just(0.0f64), 1 => Just(-0.0f64), 1 => Just(lim), 1 => Just(-lim)];
+    let radius = prop_oneof![12 => 0.03f64..=5.0, 1 => Just(0.03f64), 1 => Just(5.0f64)];
+    let phase = prop_oneof![12 => -PI..=PI, 1 => Just(0.0f64), 1 => Just(PI), 1 => Just(-PI)];
+    (coord(3.0), coord(3.0), coord(1.3), radius, phase, pitch()).prop_map(|(x0, y0, z0, r, phi0, h)| [x0, y0, z0, r, phi0, h])
 }
 
 /// Helix that passes close to the beam axis (|r - |c|| small), as fitted
@@ -233,6 +237,13 @@ pub fn axis_helix() -> impl Strategy<Value = [f64; 6]> {
         let c = r + delta;
         [c * a.cos(), c * a.sin(), z0, r, a + PI, h]
     })
+}
+
+/// Boundary values: helix axis exactly on (or within rounding of) the beam
+/// line, radius around the 5.3 cm cut of the primary-vertex seed.
+pub fn beamline_helix() -> impl Strategy<Value = [f64; 6]> {
+    let zeroish = || prop_oneof![Just(0.0f64), Just(-0.0f64), Just(1e-300f64), Just(-1e-300f64), Just(5e-324f64), Just(1e-12f64), Just(-1e-9f64)];
+    (zeroish(), zeroish(), -1.0f64..=1.0, prop_oneof![0.03f64..0.053, Just(0.053f64), 0.053f64..0.3], -PI..=PI, pitch()).prop_map(|(x0, y0, z0, r, phi0, h)| [x0, y0, z0, r, phi0, h])
 }
 
 pub fn track_of(p: &[f64; 6], t_inner: f64, t_outer: f64) -> Track {
